@@ -22,7 +22,7 @@ BUDGET = {'quick': 40, 'thorough': 300}
 BLOCK = 8
 STREAM_ORDER = ['ops', 'guards', 'faults', 'chart', 'cfg']
 RULE = ('well-formed chart with contracts reading __old__, history states, sends and delayed events; a seeded script of queue (with '
-        'delays) / clock advance / execute_once with drawn guard outcomes and some contract conditions made false; in a third of the runs a property statechart that reads its synchronised clock is bound and is part of the snapshot; in a third of the runs guards log after() and idle(); in a third some sent events carry the list of the context itself as a parameter; in a quarter of the runs the clock is a started sismic SimulatedClock (speed 1, 2 or 1/2) fed by a scripted wall time. The "crash" is a '
+        'delays) / clock advance / execute_once with drawn guard outcomes and some contract conditions made false; in a third of the runs a property statechart that reads its synchronised clock is bound and is part of the snapshot; in a third of the runs guards log after() and idle(); in a third some sent events carry the list of the context itself as a parameter; in a third the interpreter is bound to a method of a component object that is also reachable from its context; in a quarter of the runs the clock is a started sismic SimulatedClock (speed 1, 2 or 1/2) fed by a scripted wall time. The "crash" is a '
         'snapshot (pickle.dumps+loads, and copy.deepcopy) taken at a macro-step boundary: at EVERY boundary b of the script (thorough) or 6 '
         'drawn boundaries (quick), and a second time a few steps later (restore, continue, crash again). The restored interpreter and the '
         'original are continued in lock-step and both must reproduce the undisturbed control run: macro steps, configurations, context, '
@@ -53,6 +53,17 @@ TIMEWIRE = _timewire()
 
 def _mk_property(sc, clock, K=0):
     return Interpreter(sc, clock=clock, initial_context={'K': K})
+
+
+class Sink:
+    """a component the interpreter is bound to through one of its methods (`it.bind(sink.deliver)`); it is also reachable from
+    the context, so a snapshot of the interpreter carries it along - and the copy delivers to the copy"""
+
+    def __init__(self):
+        self.got = []
+
+    def deliver(self, event):
+        self.got.append((event.name, event.data.get('uid')))
 
 
 CUR = [None]     # the player whose wall clock the patched sismic.clock.clock.time() reads
@@ -107,11 +118,11 @@ class Player:
             ms, exc = None, (type(e).__name__, str(e)[:120])
             self.dead = True
         ctx = (it.context.get('v'), it.context.get('z'), len(it.context.get('w', ())), len(it.context.get('u', [[]])[0]),
-               getattr(it.context.get('box'), 'n', None))
+               getattr(it.context.get('box'), 'n', None), len(it.context['SINK'].got) if 'SINK' in it.context else None)
         return (sig(ms), it.configuration, ctx, exc, P.log[mark:], it.time, it.final)
 
 
-def fresh(sp, cond_truth, echoes=(), watch=None, realclock=None):
+def fresh(sp, cond_truth, echoes=(), watch=None, realclock=None, sink=False):
     P = Probe()
     P.cond_truth = dict(cond_truth)
     sc = build_api(sp)
@@ -125,7 +136,12 @@ def fresh(sp, cond_truth, echoes=(), watch=None, realclock=None):
         clock.start()
     else:
         clock = SimClock()
-    it = Interpreter(sc, clock=clock, initial_context={'P': P}, ignore_contract=False)
+    ictx = {'P': P}
+    if sink:
+        ictx['SINK'] = Sink()
+    it = Interpreter(sc, clock=clock, initial_context=ictx, ignore_contract=False)
+    if sink:
+        it.bind(ictx['SINK'].deliver)
     pl.it = it
     if watch is not None:
         import functools
@@ -191,7 +207,12 @@ def prepare(ch, tier, res):
     if realclock:
         res.stats['runs_on_a_running_SimulatedClock'] += 1
     # ---------------- control run; the script is drawn while it executes
-    control = fresh(sp, cond_truth, echoes, watch, realclock)
+    # in a third of the runs the interpreter is bound to a component object (through one of its methods) that the snapshot
+    # has to carry along
+    sink = fs.flag(1, 3)
+    if sink:
+        res.stats['runs_bound_to_a_component_object'] += 1
+    control = fresh(sp, cond_truth, echoes, watch, realclock, sink)
     script, outs = [], []
     n = ops.int(4, 25 if tier == 'quick' else 40)
     uid = 0
@@ -215,14 +236,14 @@ def prepare(ch, tier, res):
             res.stats['control_ended_by_property_statechart' if outs[-1][3][0] == 'PropertyStatechartError' else 'control_ended_by_contract_error'] += 1
             break
     return dict(sp=sp, cond_truth=cond_truth, echoes=echoes, watch=watch, realclock=realclock, script=script, outs=outs, fs=fs,
-                control=control)
+                control=control, sink=sink)
 
 
 def _run(ch, tier):
     res = Result()
     g = prepare(ch, tier, res)
     sp, cond_truth, echoes, watch, realclock = g['sp'], g['cond_truth'], g['echoes'], g['watch'], g['realclock']
-    script, outs, fs, control = g['script'], g['outs'], g['fs'], g['control']
+    script, outs, fs, control, sink = g['script'], g['outs'], g['fs'], g['control'], g['sink']
     PROTOCOL[0] = fs.pick([None, 2, 3, 4, 5, 0])
     bounds = list(range(1, len(script)))     # snapshot taken before script[b]
     if not bounds:
@@ -234,7 +255,7 @@ def _run(ch, tier):
     cfp = fp((sp.fingerprint(), [repr(o) for o in script]))
     for b in bounds:
         for kind in ('pickle', 'deepcopy'):
-            orig = fresh(sp, cond_truth, echoes, watch, realclock)
+            orig = fresh(sp, cond_truth, echoes, watch, realclock, sink)
             for i in range(b):
                 orig.play(script[i])
             try:
@@ -319,7 +340,7 @@ def xp_child(argv):
                 continue
             path = os.path.join(outdir, '%d.pkl' % i)
             if mode == 'dump':
-                orig = fresh(g['sp'], g['cond_truth'], g['echoes'], g['watch'], g['realclock'])
+                orig = fresh(g['sp'], g['cond_truth'], g['echoes'], g['watch'], g['realclock'], g['sink'])
                 for k in range(g['b']):
                     orig.play(g['script'][k])
                 CUR[0] = orig
